@@ -183,7 +183,7 @@ def _make_mrs_isograph(x: mrs.MRS, properties: bool) -> util._IsoGraph:
         s = predicate.normalize(ep.predicate)
         if carg is not None:
             s += f'({carg})'
-        elif properties and props:
+        if properties and props:
             proplist = []
             for prop in sorted(props, key=property_priority):
                 val = props[prop]
